@@ -13,6 +13,7 @@ One operation object is also used repeatedly on one atoms object and one group o
 neighbours are edited in place; masks are also assigned or edited after construction (each operation is judged against
 the mask the workload gave that very object; operations built without a mask before and after a sibling's mask was
 set are called again and must still behave as built).
+Bulk shards put millions of Ball / Box / Sphere proposals through the bound contracts (rare coincidences of draws).
 """
 from __future__ import annotations
 
@@ -34,7 +35,7 @@ ASSUMPTIONS = [
     "symmetry of a proposal with its inverse is tested on i.i.d. draws: displacement d vs -d, rotation vector vs its negative, log of the deformation gradient vs its negative; "
     "sign test |z|>5 or two-sample KS p<1e-6 flags; a flag is re-measured once with 4x the draws and is a violation only if flagged again",
 ]
-REQUIRED = {"calls_on_atoms_edited_in_place": 200, "masks_assigned_after_construction": 300, "default_built_masks_edited_in_place": 100, "bystander_calls_after_a_sibling_mask_was_set": 1000, "calls:Ball": 1000, "calls:Box": 1000, "calls:Sphere": 1000, "calls:Translation": 1000, "calls:Rotation": 500, "calls:TranslationRotation": 500, "calls:CompositeOperation": 300, "calls:IsotropicDeformation": 500, "calls:AnisotropicDeformation": 500, "calls:ShapeDeformation": 500, "symmetry_tests": 20, "uniformity_tests": 2, "masked_calls": 200}
+REQUIRED = {"bulk_draws:Ball": 1500000, "bulk_draws:Box": 1500000, "bulk_draws:Sphere": 1500000, "calls_on_atoms_edited_in_place": 200, "masks_assigned_after_construction": 300, "default_built_masks_edited_in_place": 100, "bystander_calls_after_a_sibling_mask_was_set": 1000, "calls:Ball": 1000, "calls:Box": 1000, "calls:Sphere": 1000, "calls:Translation": 1000, "calls:Rotation": 500, "calls:TranslationRotation": 500, "calls:CompositeOperation": 300, "calls:IsotropicDeformation": 500, "calls:AnisotropicDeformation": 500, "calls:ShapeDeformation": 500, "symmetry_tests": 20, "uniformity_tests": 2, "masked_calls": 200}
 SHARD_TIMEOUT = {"quick": 900, "thorough": 3000}
 
 ORIG: dict = {}
@@ -48,6 +49,11 @@ def plan(tier, seed):
     specs = []
     for op in ("Ball", "Box", "Sphere"):
         specs.append({"name": f"sym-{op}", "mode": "disp", "op": op, "n": n, "seed": seed})
+    # volume for the bounds alone: a violation that needs a rare coincidence of draws (a few per million proposals) shows
+    # only where millions of proposals are looked at; every call goes through the same contract
+    for op in ("Ball", "Box", "Sphere"):
+        for j in range(4 if not big else 8):
+            specs.append({"name": f"bulk-{op}{j}", "mode": "bulk", "op": op, "n": 450000 if not big else 1500000, "seed": seed, "j": j})
     for j in range(4):
         specs.append({"name": f"sym-Rotation{j}", "mode": "rot", "op": "Rotation", "n": nrot, "seed": seed, "j": j})
     specs.append({"name": "sym-TranslationRotation", "mode": "rot", "op": "TranslationRotation", "n": nrot, "seed": seed, "j": 9})
@@ -417,6 +423,21 @@ def make_ctx(rng, natoms_group, cellkind="cubic", n_other=2):
     return ctx
 
 
+def run_bulk(spec, rec):
+    import quansino.operations.displacement as od
+
+    rng = rng_for("C10b", spec["seed"], spec["op"], spec["j"])
+    cls = getattr(od, spec["op"])
+    steps = (1e-3, 0.05, 1.0, 10.0)
+    for k, step in enumerate(steps):
+        ctx = make_ctx(rng, 1)
+        op = cls(step)
+        rec.case(spec["op"], "bulk", step)
+        for _ in range(spec["n"] // len(steps)):
+            op.calculate(ctx)  # judged by the contract around calculate
+        rec.count(f"bulk_draws:{spec['op']}", spec["n"] // len(steps))
+
+
 def run_disp(spec, rec):
     import quansino.operations.displacement as od
 
@@ -663,5 +684,5 @@ def run(spec):
     env.import_quansino()
     rec = Rec(spec["name"])
     install(rec)
-    {"disp": run_disp, "rot": run_rot, "trans": run_trans, "deform": run_deform, "masks": run_masks, "comp": run_comp, "hostile": run_hostile}[spec["mode"]](spec, rec)
+    {"disp": run_disp, "bulk": run_bulk, "rot": run_rot, "trans": run_trans, "deform": run_deform, "masks": run_masks, "comp": run_comp, "hostile": run_hostile}[spec["mode"]](spec, rec)
     return rec.out()
